@@ -222,7 +222,8 @@ def run_one(seed, tier, explicit=None):
     prof = U.Profile.draw(rng)
     prof['max_entries'] = min(prof['max_entries'], 4)
     prof['max_synsets'] = min(prof['max_synsets'], 4)
-    prof['special'] = rng.choice([0.15, 0.5])
+    prof['special'] = rng.choice([0.3, 0.6, 0.9])
+    prof['p_attr_special'] = 0.6
     u = explicit['universe'] if explicit else U.generate(rng, prof)
     prng = subseed(seed, 'plan')
     sim = Case(u, seed, PROP, ['installed'])
@@ -259,10 +260,10 @@ def run_one(seed, tier, explicit=None):
             quote = prng.choice(['"', "'"])
             indent = prng.random() < 0.8
             style = None
-            if prng.random() < 0.5:
+            if prng.random() < 0.6:
                 style = {'seed': prng.randint(0, 10 ** 6), 'shuffle_attrs': prng.random() < 0.5,
                          'cdata': prng.random() < 0.4, 'comments': prng.random() < 0.5,
-                         'charrefs': prng.random() < 0.3, 'mixed_quotes': prng.random() < 0.3}
+                         'charrefs': prng.random() < 0.6, 'mixed_quotes': prng.random() < 0.3}
             if explicit:
                 quote, indent, style = explicit['quote'], explicit['indent'], \
                     explicit.get('style')
